@@ -411,6 +411,24 @@ theorem getallParts_eq (ds : List DS) (h : ∀ d ∈ ds, getall d = .ok (.list, 
     have ht := ih (fun y hy => h y (by simp [hy]))
     simp [getallParts, hd, ht, flattenAll]
 
+theorem hasGetallAll_iff (ds : List DS) : hasGetallAll ds = true ↔ ∀ d ∈ ds, hasGetall d = true := by
+  induction ds with
+  | nil => simp [hasGetallAll]
+  | cons d ds ih => simp [hasGetallAll, ih]
+
+/-- working bulk accessors everywhere below imply that the stack truthfully claims the accessor -/
+theorem hasGetall_of_bulkOk : ∀ d, bulkOk d = true → hasGetall d = true := by
+  apply DS.induct
+  · intro id n k h; simpa [bulkOk, hasGetall] using h
+  · intro u t d idx ih h; simp only [bulkOk] at h; simpa [hasGetall] using ih h
+  · intro u t d ih h; simp only [bulkOk] at h; simpa [hasGetall] using ih h
+  · intro ds b ih h
+    simp only [bulkOk] at h
+    rw [bulkOkParts_iff] at h
+    simp only [hasGetall]
+    rw [hasGetallAll_iff]
+    exact fun d hd => ih d hd (h d hd).1
+
 theorem getall_eq_flatten : ∀ d, valid d = true → bulkOk d = true → getall d = .ok (kindOf d, flatten d) := by
   apply DS.induct
   · intro id n kind _ hb
@@ -419,7 +437,7 @@ theorem getall_eq_flatten : ∀ d, valid d = true → bulkOk d = true → getall
   · intro u t d idx ih hv hb
     simp only [valid, Bool.and_eq_true, List.all_eq_true, decide_eq_true_eq] at hv
     simp only [bulkOk] at hb
-    simp [getall, ih hv.1 hb, mapE_pyGet _ _ hv.2, kindOf, flatten]
+    simp [getall, hasGetall_of_bulkOk d hb, ih hv.1 hb, mapE_pyGet _ _ hv.2, kindOf, flatten]
   · intro u t d ih hv hb
     simp only [valid] at hv
     simp only [bulkOk] at hb
@@ -434,14 +452,8 @@ theorem getall_eq_flatten : ∀ d, valid d = true → bulkOk d = true → getall
       have := ih d hd (hall d hd) (hb d hd).1
       rw [kindOf_of_listKind d (hb d hd).2] at this
       exact this)
-    simp [getall, this, kindOf, flatten]
-
-theorem hasGetall_of_bulkOk : ∀ d, bulkOk d = true → hasGetall d = true := by
-  apply DS.induct
-  · intro id n k h; simpa [bulkOk, hasGetall] using h
-  · intro u t d idx _ _; rfl
-  · intro u t d ih h; simp only [bulkOk] at h; simpa [hasGetall] using ih h
-  · intro ds b _ _; rfl
+    have hh : hasGetallAll ds = true := (hasGetallAll_iff ds).mpr (fun d hd => hasGetall_of_bulkOk d (hb d hd).1)
+    simp [getall, hh, this, kindOf, flatten]
 
 theorem range_map_getD {α : Type} (l : List α) (dflt : α) :
     (List.range l.length).map (fun i => l.getD i dflt) = l := by
